@@ -18,12 +18,15 @@ pub struct Case {
     pub a: String,
     pub b: String,
     pub c: String,
+    /// MIXED only: a second REAL (transitivity through an INT between two REALs)
+    #[serde(default)]
+    pub d: String,
 }
 
 pub struct C16;
 
 const INT_POOL: [&str; 10] = ["0", "1", "-1", "9223372036854775807", "-9223372036854775808", "9223372036854775806", "9007199254740992", "9007199254740993", "42", "-42"];
-const REAL_POOL: [&str; 14] = ["0.0", "-0.0", "1.5", "-1.5", "inf", "-inf", "NaN", "5e-324", "1e308", "-1e308", "2.0", "9007199254740993.0", "0.1", "42.0"];
+const REAL_POOL: [&str; 18] = ["0.0", "-0.0", "1.5", "-1.5", "inf", "-inf", "NaN", "5e-324", "1e308", "-1e308", "2.0", "9007199254740993.0", "0.1", "42.0", "-NaN", "-9223372036854775808.0", "9223372036854775808.0", "-1.0"];
 const TEXT_POOL: [&str; 12] = ["", "a", "ab", "b", "B", "é", "z", "😀", "a ", "10", "9", "A"];
 const TS_POOL: [&str; 6] = ["2021-03-04 05:06:07", "2021-03-04 05:06:08", "1999-12-31 23:59:59", "2021-03-04 05:06:06", "2038-01-19 03:14:08", "1970-01-01 00:00:00"];
 /// instants with microseconds (multi-group TIMESTAMP column with the MICROSECONDS modifier)
@@ -68,7 +71,7 @@ fn parse_value(ty: &str, text: &str) -> Option<V> {
 fn special(ty: &str, text: &str) -> bool {
     match ty {
         "INT" => text.len() > 10,
-        "REAL" => matches!(text, "0.0" | "-0.0" | "inf" | "-inf" | "NaN" | "5e-324" | "1e308" | "-1e308"),
+        "REAL" => matches!(text, "0.0" | "-0.0" | "inf" | "-inf" | "NaN" | "-NaN" | "5e-324" | "1e308" | "-1e308" | "-9223372036854775808.0" | "9223372036854775808.0"),
         "TEXT" => text.is_empty() || !text.is_ascii(),
         "INT[]" => text == "[]" || text.contains(','),
         "TIMESTAMP_US" => !text.ends_with(".000000"),
@@ -126,7 +129,7 @@ impl Property for C16 {
 
     fn generate(&self, t: &mut Tape, ctx: &Ctx) -> Case {
         if t.chance(1, 6) {
-            return Case { ty: "MIXED".into(), a: t.pick(&INT_POOL).to_string(), b: t.pick(&REAL_POOL).to_string(), c: t.pick(&INT_POOL).to_string() };
+            return Case { ty: "MIXED".into(), a: t.pick(&INT_POOL).to_string(), b: t.pick(&REAL_POOL).to_string(), c: t.pick(&INT_POOL).to_string(), d: t.pick(&REAL_POOL).to_string() };
         }
         let ty = *t.pick(&TYPES);
         let p = pool(ty);
@@ -140,7 +143,7 @@ impl Property for C16 {
         let a = pick(t);
         let b = if t.chance(1, 3) { a.clone() } else { pick(t) };
         let c = if t.chance(1, 3) { b.clone() } else { pick(t) };
-        Case { ty: ty.to_string(), a, b, c }
+        Case { ty: ty.to_string(), a, b, c, d: String::new() }
     }
 
     fn enum_count(&self, tier: Tier, _ctx: &Ctx) -> u64 {
@@ -162,13 +165,13 @@ impl Property for C16 {
                 let a = p[(rest % k) as usize];
                 let b = p[((rest / k) % k) as usize];
                 let c = if tier == Tier::Quick { a } else { p[(rest / (k * k)) as usize] };
-                return Some(Case { ty: ty.to_string(), a: a.to_string(), b: b.to_string(), c: c.to_string() });
+                return Some(Case { ty: ty.to_string(), a: a.to_string(), b: b.to_string(), c: c.to_string(), d: String::new() });
             }
             rest -= size;
         }
         let k = INT_POOL.len() as u64;
         let r = REAL_POOL.len() as u64;
-        Some(Case { ty: "MIXED".into(), a: INT_POOL[(rest % k) as usize].to_string(), b: REAL_POOL[((rest / k) % r) as usize].to_string(), c: INT_POOL[((rest / (k * r)) % k) as usize].to_string() })
+        Some(Case { ty: "MIXED".into(), a: INT_POOL[(rest % k) as usize].to_string(), b: REAL_POOL[((rest / k) % r) as usize].to_string(), c: INT_POOL[((rest / (k * r)) % k) as usize].to_string(), d: REAL_POOL[((rest / k + rest / (k * r)) % r) as usize].to_string() })
     }
 
     fn enum_description(&self) -> Option<String> {
@@ -266,6 +269,24 @@ impl Property for C16 {
                     return Err(Failure::new("mixed: join-vs-equality", format!("{} | joining INT {} with REAL {} gives {} row(s)", ctxt, case.a, case.b, j.records().len())));
                 }
                 obs.inner += 3;
+            }
+            // transitivity through the INT between two REALs (and the other two arrangements)
+            if !case.d.is_empty() {
+                let tdefs = "CREATE TABLE w(line = '^i=([^;]*);r=([^;]*);q=([^;]*);', line[1] => i INT, line[2] => r REAL, line[3] => q REAL);";
+                let tq = "SELECT (r < i) AS r_i, (i < r) AS i_r, (i < q) AS i_q, (q < i) AS q_i, (r < q) AS r_q, (q < r) AS q_r FROM w";
+                let to = one(tdefs, tq, &[format!("i={};r={};q={};", case.a, case.b, case.d)])?;
+                let tf = first_obj(&to, tq)?;
+                let h = |k: &str| bool_of(&tf, k).map_err(|e| Failure::new("undecodable-output", e));
+                let (r_i, i_r, i_q, q_i, r_q, q_r) = (h("r_i")?, h("i_r")?, h("i_q")?, h("q_i")?, h("r_q")?, h("q_r")?);
+                let chains = [(r_i, i_q, r_q, "r < i < q"), (q_i, i_r, q_r, "q < i < r"), (i_r, r_q, i_q, "i < r < q"), (i_q, q_r, i_r, "i < q < r"), (r_q, q_i, r_i, "r < q < i"), (q_r, r_i, q_i, "q < r < i")];
+                for (x, y, z, name) in chains {
+                    if x && y && !z {
+                        return Err(Failure::new(
+                            "mixed: transitivity through an INT and two REALs",
+                            format!("INT i = {}, REAL r = {}, REAL q = {}: {} holds link by link but not end to end", case.a, case.b, case.d, name),
+                        ));
+                    }
+                }
             }
             let i: i64 = case.a.parse().unwrap_or(0);
             let r: f64 = case.b.parse().unwrap_or(0.0);
